@@ -1240,7 +1240,11 @@ fn main() {
                     "C" => {
                         let w: usize = f.get(1).and_then(|s| s.parse().ok()).unwrap_or(0);
                         if w < world.wls.len() {
-                            let st = world.runtime.worldlines().get(&world.wls[w]).expect("frontier").state().clone();
+                            // checkpoint the REPLAYED frontier state (it carries the re-recorded outputs)
+                            let st = match world.provenance.replay_worldline_state(world.wls[w], &world.base) {
+                                Ok(st) => st,
+                                Err(_) => world.runtime.worldlines().get(&world.wls[w]).expect("frontier").state().clone(),
+                            };
                             if let Err(e) = world.provenance.checkpoint(world.wls[w], &st) {
                                 world.notes.push(format!("checkpoint-rejected:{}", format!("{e:?}").chars().take(30).collect::<String>()));
                             }
